@@ -591,7 +591,10 @@ func New(config ...Config) *App {
 		app.config.RequestMethods = DefaultMethods
 	}
 
+	// Both lookup structures are derived from Proxies: start from scratch, the Config may be a
+	// copy of another app's (App.Config()) and still carry that app's parsed ranges
 	app.config.TrustProxyConfig.ips = make(map[string]struct{}, len(app.config.TrustProxyConfig.Proxies))
+	app.config.TrustProxyConfig.ranges = nil
 	for _, ipAddress := range app.config.TrustProxyConfig.Proxies {
 		app.handleTrustedProxy(ipAddress)
 	}
